@@ -22,6 +22,8 @@ ASSUMPTIONS = [
 ]
 
 EXOTIC = {'FIELD': '!', 'COMPONENT': '@', 'SUBCOMPONENT': '$', 'REPETITION': '%', 'ESCAPE': '*'}
+# a default set carrying the optional truncation character (accepted by set_default_encoding_chars)
+EXOTIC_T = dict(EXOTIC, TRUNCATION='+')
 
 
 def ec_for(v):
@@ -208,6 +210,30 @@ def corpus(v, level):
         m.zz1.zz1_2 = 'a^b'
         return m.to_er7(), report(m)
     add('Message:traversal-assignment', traversal)
+
+    # base datatype objects as values (the wrapping elements are created by the library: in the element's own version)
+    def dtobject_field():
+        f = core.Field('ZZZ_1', datatype='ST', version=v, validation_level=level)
+        f.value = datatype_factory('ST', 'abc', v, level)
+        return f.to_er7(ec), [c.version for c in treeinv.walk(f)], [c.validation_level for c in treeinv.walk(f)]
+    add('Field.value:datatype-object', dtobject_field)
+
+    def dtobject_segment():
+        sg = core.Segment('PID', version=v, validation_level=level)
+        sg.pid_1 = datatype_factory('SI', '1', v, level)
+        c = core.Component(datatype='ST', version=v, validation_level=level)
+        c.value = datatype_factory('ST', 'q', v, level)
+        return sg.to_er7(ec), c.to_er7(ec), [x.version for x in treeinv.walk(sg)] + [x.version for x in treeinv.walk(c)]
+    add('Segment:datatype-object-by-name', dtobject_segment)
+
+    def own_truncation():
+        # a message whose MSH-2 declares four characters has no truncation character, whatever the defaults carry
+        m = parser.parse_message('MSH|^~\\&|A|B|C|D|20200101||%s|1|P|%s\rPID|1||a+b#c||D' % (m9, v), validation_level=level)
+        b = core.Message('ADT_A01', version=v, validation_level=level, encoding_chars=gen.full_ec(er7ref.STD))
+        b.msh.msh_7 = '20200101'
+        b.add_segment('PID').pid_5 = 'x+y#z'
+        return m.to_er7(), sorted(m.encoding_chars), b.to_er7(), sorted(b.encoding_chars), m.to_mllp()[-12:]
+    add('Message:four-encoding-characters', own_truncation)
     add('Group', lambda: (lambda g: (g.add_segment('PID'), g.to_er7(ec))[-1])(
         core.Group('ADT_A01_INSURANCE' if 'ADT_A01_INSURANCE' in tables.lib(v).GROUPS else None, version=v,
                    validation_level=level)))
@@ -294,8 +320,9 @@ def run_shard(spec, rec):
         obs0 = observe(els)
         rec.count('baseline_calls', len(calls))
         rec.count('default_consultations_baseline', consult['n'])
-        for dec in (None, EXOTIC):
-            cfg = {'default_version': spec['dv'], 'default_level': spec['dl'], 'default_ec': 'exotic' if dec else 'standard'}
+        for dec in (None, EXOTIC, EXOTIC_T):
+            cfg = {'default_version': spec['dv'], 'default_level': spec['dl'],
+                   'default_ec': 'standard' if dec is None else 'exotic' if dec is EXOTIC else 'exotic-with-truncation'}
             differs = spec['dv'] != base_defaults[0] or spec['dl'] != base_defaults[1] or dec is not None
             hl7apy.set_default_version(spec['dv'])
             hl7apy.set_default_validation_level(spec['dl'])
